@@ -1,6 +1,24 @@
 CFG = dict(
      claimed=True,
-     rule="draft",
-     assumptions=["draft"],
-     technique="draft", level_text="draft", level_note="draft",
+     rule="Cases: (entry point, algorithm name, key kind/length, nonce length, message length, associated-data length, one optional "
+          "mutation = single-byte change | truncation | extension of one of ciphertext/tag/nonce/associated data/key/wrapped key/"
+          "digest/signature) for the 19 symmetric, 5 RSA-encryption and 10 signature algorithms through Encrypt/Decrypt, "
+          "EncryptSymmetric/DecryptSymmetric, EncryptPublicKey/DecryptPrivateKey, SignPrivateKey/VerifyPublicKey, and directly for "
+          "aeskw.Wrap/Unwrap, the four aescbcaead AEADs (dst forms incl. in place) and padding. Exhaustive tables: algorithm x key "
+          "length 1..72 x nonce length 0..32 (x tag length 0..32 on decryption), message lengths 0..80, every key kind, PKCS#7 "
+          "block sizes 2..255; sweeps of every byte position for the mutations; rapid for the rest. Non-trivial: a successful "
+          "operation on a non-empty message, or a rejection case whose unmutated twin succeeded. Distinct by (entry point, algorithm, "
+          "key class, lengths, mutated component and position), not by the random content.",
+     assumptions=["Go standard library crypto (AES, GCM, HMAC, RSA, ECDSA, Ed25519) and golang.org/x/crypto/chacha20poly1305 are correct: they are the interoperability peers",
+                  "the harness' own RFC 3394 / RFC 7518 5.2 / PKCS#7 implementations are right (self-tested against the RFC 3394 section 4 and RFC 7518 appendix B vectors)",
+                  "lestrrat-go/jwx builds jwk.Key values faithfully from raw keys",
+                  "rejections that hold only with overwhelming probability (2^-64 for key wrap, 2^-128 for tags) are treated as certain"],
+     technique="property-based testing (rapid) + exhaustive size/kind tables and per-byte mutation sweeps, differential against independent "
+               "implementations written from the RFCs and against the Go standard library",
+     level_text="Generated-input search: every case runs the real dapr/kit crypto code and is judged by an explicit oracle (byte-for-byte "
+                "equality with an independent implementation for the deterministic algorithms, cross-verification for the randomized ones, "
+                "rejection with the documented sentinel and no output). Exhaustive for the size tables and key kinds; sampled beyond. No absence claim.",
+     level_note="Not asserted: rejection of changed unauthenticated ciphertext (raw AES-CBC, RSA PKCS#1 v1.5), of a different key of the right "
+                "size, or of bytes appended to a full-size ECDSA digest; which sentinel wins when several components are wrong; behaviour for a "
+                "nonce/tag handed to an algorithm that has none. Empty symmetric keys cannot be built as jwk.Key and are not covered.",
      timeout_quick=600, timeout_thorough=2400)
